@@ -11,18 +11,26 @@
 (*   phase  - all requests of the phase have returned: outputs and state   *)
 (* A step is the specification's step of that connection when the label is *)
 (* the call its location waits for; a label without location (Unmodelled)  *)
-(* is a stuttering step; anything else has no successor and the trace is   *)
-(* rejected.  Identifier choices the code makes from Go map iteration are  *)
-(* left to TLC; the phase event prunes by the logged state.                *)
-(* The invariants of RelayConc are evaluated in every state of the trace.  *)
+(* is a stuttering step.  Identifier choices the code makes from Go map    *)
+(* iteration are left to TLC; the phase event prunes by the logged state.  *)
+(*                                                                         *)
+(* Two kinds of verdict are kept apart:                                    *)
+(*  - conformance: when no branch can take an event, the run is `lost`     *)
+(*    until the next reset (the specification does not describe what the   *)
+(*    code did: reported as such, not as a violation of a property);       *)
+(*  - properties: the L_* invariants are predicates of the LOGGED outputs  *)
+(*    and state only, so they judge the real execution whether or not the  *)
+(*    specification explains it; the model-state invariants of RelayConc   *)
+(*    are evaluated while the run is not lost.                             *)
 (***************************************************************************)
 EXTENDS RelayConc, Json, IOUtils
 
 Trace == ndJsonDeserialize(IOEnv.VERIF_TRACE)
 
-VARIABLE l
+VARIABLES l,      \* next event
+          lost    \* the specification lost track of the current run
 
-tvars == <<vars, l>>
+tvars == <<vars, l, lost>>
 
 ToSet(s) == {s[i] : i \in 1..Len(s)}
 
@@ -39,7 +47,7 @@ BeginAll(p) ==
 ProgOf(e) == [c \in Conns |-> e.prog[c]]
 
 TraceInit ==
-  /\ l = 1
+  /\ l = 1 /\ lost = FALSE
   /\ reg = Empty /\ sidgen = NewGen /\ gauge = 0 /\ objs = <<>> /\ mst = <<>>
   /\ conn = [c \in Conns |-> [sess |-> 0, pid |-> 0, own |-> {}, fid |-> 0, ms |-> 0]]
   /\ pc = [c \in Conns |-> "idle"]
@@ -50,19 +58,21 @@ TraceInit ==
 
 ResetEv ==
   /\ IsEv("reset")
+  /\ lost' = FALSE
   /\ reg' = Empty /\ sidgen' = NewGen /\ gauge' = 0 /\ objs' = <<>> /\ mst' = <<>>
   /\ conn' = [c \in Conns |-> [sess |-> 0, pid |-> 0, own |-> {}, fid |-> 0, ms |-> 0]]
   /\ held' = [c \in Conns |-> {}]
   /\ out' = [c \in Conns |-> <<>>]
   /\ BeginAll(ProgOf(Ev))
 
-StepEv ==
-  /\ IsEv("step")
-  /\ LET c == Ev.c IN
-     /\ c \in Conns /\ ~Idle(c)
-     /\ IF GateOf(c).fn = Ev.lbl
-        THEN CanAcquire(c) /\ Body(c) /\ prog' = prog
-        ELSE Ev.lbl \in Unmodelled /\ UNCHANGED vars
+StepOk ==
+  LET c == Ev.c IN
+  /\ c \in Conns /\ ~Idle(c)
+  /\ IF GateOf(c).fn = Ev.lbl
+     THEN CanAcquire(c) /\ Body(c) /\ prog' = prog
+     ELSE Ev.lbl \in Unmodelled /\ UNCHANGED vars
+
+StepEv == IsEv("step") /\ ~lost /\ StepOk /\ lost' = lost
 
 (***************************************************************************)
 (* what the harness saw at the end of a phase                              *)
@@ -91,19 +101,81 @@ Matches(e) ==
   /\ {ConnView(c) : c \in Conns} = {LoggedConn(r) : r \in ToSet(e.conns)}
   /\ \A c \in Conns : out[c] = NormOut(e.outs[c])
 
-\* a connection whose request was refused as "session not joined" is closed by the server: nothing follows
 PopBarrier(p) == [c \in Conns |-> IF p[c] # <<>> /\ Head(p[c]).k = "Barrier" THEN Tail(p[c]) ELSE p[c]]
 
-PhaseEv ==
-  /\ IsEv("phase")
+PhaseOk ==
   /\ Matches(Ev)
   /\ UNCHANGED <<reg, sidgen, gauge, objs, mst, conn, held, out>>
   /\ BeginAll(PopBarrier(prog))
 
-TraceNext == ResetEv \/ StepEv \/ PhaseEv
+PhaseEv == IsEv("phase") /\ ~lost /\ PhaseOk /\ lost' = lost
+                         /\ (Ev.last => PrintT(<<"EXPLAINED", Ev.cid>>))
+
+\* no branch explains the event: the run is lost until the next reset
+LoseEv ==
+  /\ l <= Len(Trace) /\ Ev.ev \in {"step", "phase"} /\ l' = l + 1
+  /\ \/ lost
+     \/ /\ Ev.ev = "step" /\ ~ENABLED StepOk
+     \/ /\ Ev.ev = "phase" /\ ~ENABLED PhaseOk
+  /\ (~lost => PrintT(<<"LOST", Ev.cid, l, Ev.ev>>))
+  /\ lost' = TRUE
+  /\ UNCHANGED vars
+
+TraceNext == ResetEv \/ StepEv \/ PhaseEv \/ LoseEv
 
 TraceSpec == TraceInit /\ [][TraceNext]_tvars
 
 TraceAccepted == TLCGet("stats").diameter - 1 = Len(Trace)
 
+(***************************************************************************)
+(* Properties of the logged execution (independent of the model state)     *)
+(***************************************************************************)
+AfterPhase == l > 1 /\ Trace[l - 1].ev = "phase"
+Lg         == Trace[l - 1]
+
+LOuts(e, c)  == NormOut(e.outs[c])
+LConnRow(e, c) == CHOOSE r \in ToSet(e.conns) : r[1] = c
+LSessOf(e, c) == LET sid == LConnRow(e, c)[2] IN
+                 IF \E r \in ToSet(e.sess) : r.sid = sid THEN {CHOOSE r \in ToSet(e.sess) : r.sid = sid} ELSE {}
+
+\* C07 / C10 / C11, structure at rest: sessions found in the registry have members, nobody is in a session that
+\* is not the one registered under its id, one frame worker and one frame handler per member, gauge = registry
+L_Lifecycle ==
+  AfterPhase =>
+    /\ \A r \in ToSet(Lg.sess) : Len(r.mem) >= 1
+    /\ Lg.gauge = Len(Lg.sess)
+    /\ Lg.dead = <<>>
+    /\ Lg.orphans = <<>>
+    /\ \A c \in Conns : LConnRow(Lg, c)[3] # 0 =>
+         \E r \in ToSet(Lg.sess) : r.sid = LConnRow(Lg, c)[2] /\ <<LConnRow(Lg, c)[3], c>> \in ToSet(r.mem)
+    /\ \A r \in ToSet(Lg.sess) : \A m \in ToSet(r.mem) : m[2] \in Conns /\ LConnRow(Lg, m[2])[2] = r.sid /\ LConnRow(Lg, m[2])[3] = m[1]
+L_FrameHandlers == AfterPhase => \A r \in ToSet(Lg.sess) : r.fh = Len(r.mem)
+L_SidSource     == AfterPhase => /\ \A r \in ToSet(Lg.sess) : r.sid \notin ToSet(Lg.free) /\ r.sid <= Lg.cur
+                                 /\ \A r1, r2 \in ToSet(Lg.sess) : r1.sid = r2.sid => r1 = r2
+
+\* C01: convergence of every member's replica with the logged state of its session
+LConvBody(e) ==
+  \A c \in Conns : LConnRow(e, c)[3] # 0 =>
+    \A S \in LSessOf(e, c) :
+      LET r == Fold([me |-> 0, P |-> {}, E |-> {}, A |-> {}, snap |-> FALSE], LOuts(e, c)) IN
+      /\ r.P = {m[1] : m \in ToSet(S.mem)}
+      /\ r.E = {[id |-> x[1], owner |-> x[2]] : x \in ToSet(S.ents)}
+      /\ (Vikja => r.A = {[eid |-> a[1], v |-> a[2]] : a \in ToSet(S.acts)})
+
+LD9(e)  == \E c \in Conns : RelayBeforeSnapshot(LOuts(e, c), FALSE)
+LD13(e) == e.setters >= 2
+LD15(e) == \E c \in Conns : StaleModuleState(LOuts(e, c), {})
+LD16(e) == \E c \in Conns : Inapplicable(LOuts(e, c), {}, FALSE)
+LD17(e) == \E c \in Conns : OlderAfterNewer(LOuts(e, c), Empty)
+LD18(e) == \E r \in ToSet(e.sess) : \E a \in ToSet(r.acts) : a[1] \notin {x[1] : x \in ToSet(r.ents)}
+
+\* convergence fails only in the listed ways; each failure is reported with its symptoms
+L_Conv ==
+  AfterPhase =>
+    \/ LConvBody(Lg)
+    \/ /\ PrintT(<<"DIVERGED", Lg.cid, LD9(Lg), LD13(Lg), LD15(Lg), LD16(Lg), LD17(Lg), LD18(Lg)>>)
+       /\ (LD9(Lg) \/ LD13(Lg) \/ LD15(Lg) \/ LD16(Lg) \/ LD17(Lg) \/ LD18(Lg))
+
+\* the model-state invariants of RelayConc, while the specification explains the run
+M_Inv == ~lost => NoOrphan /\ SidUnique /\ SidSource /\ NoLockLeft /\ OwnSane
 =============================================================================
